@@ -847,7 +847,7 @@ def e2e_system(rng):
     return dict(types=types, mols=[("A", rng.randint(1, 2)), ("L", rng.randint(1, 3))])
 
 
-def e2e_case(ctx, work, rng, mode):
+def e2e_case(ctx, work, rng, mode, first=False):
     system = e2e_system(rng)
     seed = rng.randint(0, 10 ** 6)
     kwargs = {}
@@ -872,6 +872,8 @@ def e2e_case(ctx, work, rng, mode):
         # applied (after the split: new names, any resid)
         parts = rng.choice([("build", "split"), ("build", "split"), ("build", "lig"), ("build", "start"),
                             ("split", "start"), ("build", "split", "start")])
+        if first:                                   # every run holds at least one run with two build files
+            parts = rng.choice([("build", "split"), ("build", "start"), ("build", "lig")])
         names_after = sorted(set(r[1] for r in host_res))
         if "split" in parts:
             resname = rng.choice(sorted(set(r[1] for r in host_res)))
@@ -901,10 +903,10 @@ def e2e_case(ctx, work, rng, mode):
                 rlo = rng.choice([0, 0, 1, 2])
                 lines += ["[ %s ]" % geom, "%s %d %d in 4.0 4.0 4.0 %s" % (rng.choice(names_after + ["RL"]), rlo,
                                                                          rlo + rng.choice([2, 9, 9]), params)]
-            if rng.random() < 0.5:
+            if first or rng.random() < 0.7:
                 lines += ["[ molecule ]", "L %d %d" % (nA, nA + rng.randint(1, nL)), "[ sphere ]", "RL 1 2 in 4.0 4.0 4.0 3.9"]
             kwargs["build_lines"] = lines
-            if lines.count("[ molecule ]") == 2 and rng.random() < 0.5:
+            if lines.count("[ molecule ]") == 2 and (first or rng.random() < 0.6):
                 # the same directives spread over TWO build files (-b a.bld b.bld): read one after the other
                 kwargs["build_split"] = len(lines) - 1 - lines[::-1].index("[ molecule ]")
     else:
@@ -936,7 +938,11 @@ def e2e_exec(ctx, work, mode, system, kwargs, seed):
         parts = [build_lines] if build_split is None else [build_lines[:build_split], build_lines[build_split:]]
         kwargs["build"] = []
         for num, part in enumerate(parts):
-            bld = path[:-4] + "_%d.bld" % num
+            # several build files carry the SAME file name in different directories (runA/options.bld,
+            # runB/options.bld): each of them is a file of its own and has to be read
+            folder = path[:-4] + "_run%s" % "ABC"[num]
+            os.makedirs(folder, exist_ok=True)
+            bld = os.path.join(folder, "options.bld")
             with open(bld, "w") as handle:
                 handle.write("\n".join(part) + "\n")
             kwargs["build"].append(Path(bld))
@@ -1688,8 +1694,8 @@ def run(ctx):
         pending = []
         for mode, count in (("split", ctx.budget(12, 100)), ("lig", ctx.budget(20, 180)), ("start", ctx.budget(6, 40)),
                             ("combo", ctx.budget(14, 120))):
-            for _ in range(count):
-                pending.append(e2e_case(ctx, work, rng, mode))
+            for num in range(count):
+                pending.append(e2e_case(ctx, work, rng, mode, first=(num == 0)))
         judge_e2e_tags(ctx, pending)
     finally:
         work.close()
